@@ -57,7 +57,8 @@ def insertNK (x : Nat × Key) : List (Nat × Key) → List (Nat × Key)
 
 def showKeyring (kr : Keyring) : String :=
   let ks := (kr.keys.foldr insertNK []).map fun (t, k) => toString t ++ "=" ++ showKey k
-  "kr(" ++ showKey kr.root ++ ";" ++ toString kr.active ++ ";" ++ ",".intercalate ks ++ ")"
+  "kr(" ++ showKey kr.root ++ ";" ++ toString kr.active ++ ";" ++ ",".intercalate ks ++
+    (if kr.rot = 0 then "" else ";rot=" ++ toString kr.rot) ++ ")"
 
 def showVal : Val → String
   | .bytes s => "b:" ++ s
@@ -94,6 +95,7 @@ def showRes : Res → String
   | .deser => "err:deser"
   | .termMismatch => "err:term-mismatch"
   | .io => "err:io"
+  | .due => "due:max-ops"
   | .panic => "panic"
   | .unmodelled => "unmodelled"
 
@@ -127,6 +129,9 @@ def parseOp? : List String → Option Op
   | ["rmupgrade", t] => t.toNat?.map .rmupgrade
   | ["verifyroot", k] => (parseKey? k).map .verifyroot
   | ["keyinfo"] => some .keyinfo
+  | ["tick"] => some .tick
+  | ["setrot", d] => d.toNat?.map .setrot
+  | ["heat"] => some .heat
   | _ => none
 
 def stepWorld1 (w : World) (fault : Option Nat) (fs : List String) : World × String :=
@@ -196,6 +201,7 @@ def stepCore (c : CoreSt) (fs : List String) : CoreSt × String :=
   | ["get", k] => if isDataKey k then run (.get k) else (c, "bad-op")
   | ["del", k] => if isDataKey k then run (.del k) else (c, "bad-op")
   | ["rotate"] => run .rotate
+  | ["tick"] => run .tick
   | ["rekey", n, t] | ["rekeysm", n, t] | ["rekeyv", n, t] => match n.toNat?, t.toNat? with
     | some n, some t => run (.rekey n t)
     | _, _ => (c, "bad-op")
